@@ -643,6 +643,7 @@ theorem trNested_false_d (s : Stmt) : ∀ (te : C.TyEnv) (d d' : Nat), trNested 
   | write e => intro te d d'; simp only [trNested]
   | sleep e => intro te d d'; simp only [trNested]
   | brk => intro te d d'; simp [trNested]
+  | call y g ps ls rt body ret args _ => intro te d d'; simp only [trNested]
 
 theorem Eqv_append_newDecls {a b : C.TyEnv} (hsub : Sub a b) : Eqv b (a ++ newDecls a b) := by
   intro x
@@ -805,6 +806,7 @@ def isSimple : Stmt → Bool
   | .write _ => true
   | .sleep _ => true
   | .brk => true
+  | .call _ _ _ _ _ _ _ _ => true
   | _ => false
 
 theorem simple_top2 {s : Stmt} (hs : isSimple s = true) (all : List String) (te : C.TyEnv) (acc : TopAcc) :
@@ -1097,30 +1099,29 @@ theorem prologue_sim2 (pre : Stmt) (all : List String) (te : C.TyEnv) (acc : Top
       right; right; exact ⟨s0, f1, hs0, by rw [hl']; exact hf1⟩
   · right; left; exact hs0
 
-theorem InF2_unfold (pre : Stmt) (body : Option Stmt) :
-    InF2 { pre := pre, body := body } =
-      (match pre.okTop2 (allOf pre body) [] with
+theorem InF2_unfold (pre : Stmt) (body : Option Stmt) (hs : List Helper) :
+    InF2 { pre := pre, body := body, helpers := hs } =
+      (match pre.okTop2 (allOf pre body hs) [] with
        | none => false
        | some te => match body with
          | none => true
-         | some b => b.okNested (allOf pre body) te) := rfl
+         | some b => b.okNested (allOf pre body hs) te) := rfl
 
-theorem C01_partial_promotion_aux (p : Prog) (c : CProg) (N fuel : Nat) (t : List Ev)
-    (hin : InF2 p = true) (htr : tr2 p = .ok c) (hpy : Py.run p N fuel = .ok t) :
+theorem C01_partial_promotion_core (p : Prog) (c : CProg) (N fuel : Nat) (t : List Ev)
+    (hin : InF2 p = true) (htr : tr2Core p = .ok c) (hpy : Py.run p N fuel = .ok t) :
     ∃ fuel', C.run c N fuel' = .ok t ∨ UB (C.run c N fuel') := by
-  obtain ⟨pre, body⟩ := p
-  rw [InF2_unfold] at hin
-  have hall1 : ∀ x ∈ pre.assigned, x ∈ allOf pre body := fun x hx => List.mem_append_left _ hx
-  have hall2 : ∀ b, body = some b → ∀ x ∈ b.assigned, x ∈ allOf pre body := by
-    intro b hb x hx; subst hb; exact List.mem_append_right _ hx
-  generalize allOf pre body = all at hin hall1 hall2
+  obtain ⟨pre, body, helpers⟩ := p
+  rw [InF2_unfold pre body helpers] at hin
+  have hall1 : ∀ x ∈ pre.assigned, x ∈ allOf pre body helpers := fun x hx => List.mem_append_left _ (List.mem_append_left _ hx)
+  have hall2 : ∀ b, body = some b → ∀ x ∈ b.assigned, x ∈ allOf pre body helpers := by
+    intro b hb x hx; subst hb; exact List.mem_append_left _ (List.mem_append_right _ hx)
+  generalize allOf pre body helpers = all at hin hall1 hall2
   cases hokTop : pre.okTop2 all [] with
   | none => rw [hokTop] at hin; cases hin
   | some te =>
     rw [hokTop] at hin
     simp only at hin
     have hpreall : ∀ x ∈ pre.assigned, x ∈ all := hall1
-    replace htr := (tr2_ok htr).2
     unfold tr2Core at htr
     obtain ⟨acc, hacc, htr⟩ := bind_ok htr
     simp only at htr
@@ -1183,6 +1184,13 @@ theorem C01_partial_promotion_aux (p : Prog) (c : CProg) (N fuel : Nat) (t : Lis
       exact ub_bind _ hf1
 
 
+
+theorem C01_partial_promotion_aux (p : Prog) (c : CProg) (N fuel : Nat) (t : List Ev)
+    (hin : InF2 p = true) (htr : tr2 p = .ok c) (hpy : Py.run p N fuel = .ok t) :
+    ∃ fuel', C.run c N fuel' = .ok t ∨ UB (C.run c N fuel') := by
+  obtain ⟨_, c0, hs, htr0, rfl⟩ := tr2_ok htr
+  obtain ⟨f', h⟩ := C01_partial_promotion_core p c0 N fuel t hin htr0 hpy
+  exact ⟨f', by simpa only [C_run_helpers] using h⟩
 
 /-! ### `tr2` extends `tr`, `InF2` extends `InF` -/
 
@@ -1285,15 +1293,32 @@ theorem trTop2_of_trTop (s : Stmt) : ∀ (acc acc1 : TopAcc), trTop acc s = .ok 
       rfl
   | _ => intro acc acc1 h; exact h
 
-theorem tr2_of_tr (p : Prog) (c : CProg) (htr : tr p = .ok c) : tr2 p = .ok c := by
-  obtain ⟨hnum, htr⟩ := tr_ok htr
+theorem tr2Core_of_trCore (p : Prog) (c : CProg) (htr : trCore p = .ok c) : tr2Core p = .ok c := by
   unfold trCore at htr
   obtain ⟨acc, hacc, htr⟩ := bind_ok htr
-  unfold tr2
-  rw [if_pos hnum]
   unfold tr2Core
   rw [trTop2_of_trTop _ _ _ hacc, ok_bind]
   exact htr
+
+theorem tr2_of_tr (p : Prog) (c : CProg) (htr : tr p = .ok c) : tr2 p = .ok c := by
+  have hnum := (tr_ok htr).1
+  unfold tr at htr
+  rw [if_pos hnum] at htr
+  unfold tr2
+  rw [if_pos hnum]
+  unfold withHelpers at htr ⊢
+  split
+  · rename_i hres
+    rw [if_pos hres] at htr
+    cases h1 : trHelpers p.helpers with
+    | error e => rw [h1] at htr; cases htr
+    | ok hs =>
+      rw [h1] at htr
+      cases h2 : trCore p with
+      | error e => rw [h2] at htr; cases htr
+      | ok c0 => rw [h2] at htr; rw [tr2Core_of_trCore p c0 h2]; exact htr
+  · rename_i hres
+    rw [if_neg hres] at htr; cases htr
 
 theorem okBody2_of_okNested (all : List String) (s : Stmt) : ∀ (te : C.TyEnv),
     s.okNested all te = true → s.okBody2 all te = some te := by
@@ -1371,10 +1396,10 @@ theorem okTop2_of_okTop (all : List String) (s : Stmt) : ∀ (te te1 : C.TyEnv),
   | _ => intro te te1 h; exact h
 
 theorem InF2_of_InF (p : Prog) (hin : InF p = true) : InF2 p = true := by
-  obtain ⟨pre, body⟩ := p
-  rw [InF_unfold] at hin
-  rw [InF2_unfold]
-  cases h : pre.okTop (allOf pre body) [] with
+  obtain ⟨pre, body, helpers⟩ := p
+  rw [InF_unfold pre body helpers] at hin
+  rw [InF2_unfold pre body helpers]
+  cases h : pre.okTop (allOf pre body helpers) [] with
   | none => rw [h] at hin; cases hin
   | some te =>
     rw [h] at hin
